@@ -45,7 +45,8 @@ func matrixCells() []cell {
 	textBoth("zero denominator", []string{"C[1/0]", "C[1] G[3/0]"}, []string{"1[1/0]", "R[1/0] 2[1]"})
 	textBoth("tempo 0", []string{"C[1]{bpm=0}", "C[1] R[1]{bpm=0}"}, []string{"1[1]{bpm=0}", "1[1]{bpm=00}"})
 	textBoth("unknown dynamic", []string{"C[1]{vel=zz}", "C[1]{vel=fff}", "C[1]{vel=F}"}, []string{"1[1]{vel=zz}", "1[1] 2[1]{vel=pianissimo}"})
-	textBoth("mixed notation", []string{"C[1] 2[1]", "C/3[1]", "2[1] C[1]"}, []string{"C[1] 2[1]", "1/E[1]", "2[1] C[1]"})
+	longTail := strings.Repeat(" C[1,1/2]{a=b}", 40)
+	textBoth("mixed notation", []string{"C[1] 2[1]", "C/3[1]", "2[1] C[1]", "C[1] 2[1]" + longTail}, []string{"C[1] 2[1]", "1/E[1]", "2[1] C[1]", "1[1] C[1]" + strings.Repeat(" 2[1,1/2]{a=b}", 40)})
 	textBoth("malformed key", []string{"C[1]{key=Cmaj7}", "C[1]{key=H}", "C[1]{key=xyzzy Dbb}", "C[1]{key=c}", "C[1]{key=Dbb}", "C[1]{key=F##m}"}, []string{"1[1]{key=Cmaj7}", "1[1]{key=H}", "1[1]{key=Am7}", "1[1]{key=Dbb}", "1[1]{key=C#b}"})
 	for _, st := range []string{"text parse", "text conv degree", "text conv syllable"} {
 		for _, t := range []string{"", " \n", ";only a comment\n", "\t"} {
@@ -75,6 +76,11 @@ func matrixCells() []cell {
 	for _, yc := range yamlCases {
 		for _, st := range writeStages {
 			cells = append(cells, cell{yc.n, "yaml", st, nil, yc.doc, "", strings.ReplaceAll(yc.doc, "\n", "\\n")})
+		}
+	}
+	for _, st := range writeStages { // an empty entry is not an instance (regression of a repaired defect, every write command)
+		for _, d := range []string{"- \n- values: [1]\n", validYAML + "- ~\n", "-\n"} {
+			cells = append(cells, cell{"no durations", "yaml", st, nil, d, "", fmt.Sprintf("%q", d)})
 		}
 	}
 	for _, st := range []string{"write", "write event"} {
@@ -205,7 +211,7 @@ func init() {
 				cases = append(cases, cs)
 			}
 			// other commands with seeded flag values
-			others := [][]string{{"info", "key", "describe", "--key", ""}, {"info", "key", "conv", "--key", "C", "-c", ""}, {"info", "key", "conv", "--key", "Cb", "-c", "xyz"},
+			others := [][]string{{"info", "key", "describe", "--key", ""}, {"info", "key", "conv", "--key", "C", "-c", ""}, {"info", "key", "conv", "--key", "Cb", "-c", "xyz"}, {"info", "key", "conv", "--key", "C", "-c", "ép"}, {"info", "key", "conv", "-c", "♯♭"}, {"info", "key", "conv", "--key", "G", "-c", "d→s"},
 				{"info", "key", "conv", "-c", strings.Repeat("dr", 5000)}, {"info", "key", "list", "extra"}, {"info", "attr", "describe", "-t", "Nope"}, {"info", "attr", "describe", "-t", "Major3", "-r", "H"},
 				{"info", "attr", "describe", "-t", "Major3", "-r", ""}, {"info", "chord", "describe", "-t", ""}, {"info", "chord", "describe", "-t", "C["}, {"info", "chord", "describe", "-t", "R"},
 				{"info", "chord", "describe", "-t", "C_nope"}, {"info", "chord", "describe", "-t", "1m"}, {"info", "chord", "describe", "-t", "C/E"}, {"info", "chord", "describe", "-t", "C D"},
